@@ -154,6 +154,12 @@ def make_strategy(script: dict):
             return prev
 
         # ------------------------------------------------------------------ jesse API
+        def _maybe_log_error(self):
+            # option log_error: the strategy reports something through its logger now and then (log_type='error')
+            n_ = self.s.get('log_error')
+            if n_ and self.index % n_ == n_ - 1:
+                self.log(f'noted at step {self.index}', log_type='error')
+
         def before(self):
             self._cancel_answer = None
             if self.s.get('read_metrics') and self.index % self.s['read_metrics'] == 0:
@@ -163,6 +169,7 @@ def make_strategy(script: dict):
                     self._metrics_reads = getattr(self, '_metrics_reads', 0) + (1 if m_ else 0)
                 except Exception:
                     pass
+            self._maybe_log_error()
             self._observe('before')
             self._maybe_raise('before')
 
@@ -472,6 +479,18 @@ def make_strategy(script: dict):
                 TR.cur_hook = prev
 
         def on_cancel(self):
+            if self.s.get('on_cancel_broker') and self.exchange_type != 'spot' and self.position.is_close \
+                    and self.rnd('ocn') < self.s['on_cancel_broker']:
+                # a fresh resting order placed through the broker from the hook that reports the cancellation of the entry
+                dec = self.s.get('qty_dec', 3)
+                qa = max(round(self._qty() * 0.5, dec), 10 ** -dec)
+                px = float(self.price)
+                dist = self.s.get('on_close_broker_dist', 0.004)
+                if self.rnd('ocs') < 0.5:
+                    self.broker.buy_at(qa, self._px(px * (1 - dist)))
+                else:
+                    self.broker.sell_at(qa, self._px(px * (1 + dist)))
+                TR.emit('note', what='order_from_on_cancel')
             self._observe('on_cancel')
 
         def update_position(self):
